@@ -7,7 +7,9 @@
   * calls cancelled in flight and calls cancelled while waiting for the client mutex (a row whose request was never sent);
   * an ECU subclass whose state object has further keys; a server whose state object has a further key;
   * pauses between the replayed requests (the inactivity reset of handle_request);
-  * a synthetic table of state objects (missing / extra keys, wrong types) matched key by key.
+  * a synthetic table of state objects (missing / extra keys, wrong types) matched key by key;
+  * runs whose property columns are written by the real DBHandler calls only (`record_run(pre=, post=)`): pre-properties written or
+    not (NULL), completed with post-properties or not.
 
 Everything is replayed through UDSServerTransport.handle_request with the server's state and cursor read after every request,
 and through the Lean model (`serve` of Driver/C12.lean) on the rows as read back with sqlite3."""
